@@ -5,6 +5,9 @@ package otlploggrpc
 import (
 	"context"
 	"sync"
+	"time"
+
+	sdklog "go.opentelemetry.io/otel/sdk/log"
 
 	"google.golang.org/grpc"
 	"google.golang.org/grpc/credentials/insecure"
@@ -19,7 +22,7 @@ const vCanStop = false
 
 type vUploader struct {
 	upload      func(context.Context) error
-	stop        func()
+	stop        func() error
 	waitStopped func()
 	close       func()
 	request     proto.Message
@@ -60,18 +63,54 @@ func vCloseAll() {
 	}
 }
 
-func vNewUploader(core *vCore, rc RetryConfig) *vUploader {
-	cfg := newConfig([]Option{WithGRPCConn(vSharedConn()), WithRetry(rc)})
+// vTimeoutOpts: the client timeout dimension (d: option absent = default 10 s, p: 30 s, z: 0 = none, q: 30 ms)
+func vTimeoutOpts(to string) []Option {
+	switch to {
+	case "p":
+		return []Option{WithTimeout(30 * time.Second)}
+	case "z":
+		return []Option{WithTimeout(0)}
+	case "q":
+		return []Option{WithTimeout(30 * time.Millisecond)}
+	}
+	return nil
+}
+
+func vNewClient(core *vCore, rc RetryConfig, to string) *client {
+	cfg := newConfig(append([]Option{WithGRPCConn(vSharedConn()), WithRetry(rc)}, vTimeoutOpts(to)...))
 	c, err := newClient(cfg)
 	if err != nil {
 		panic(err)
 	}
 	c.lsc = vFake{core}
+	return c
+}
+
+// vExporter: what the `shut` scenario drives — the package's Exporter (Export / Shutdown) over the scripted client.
+type vExporter struct {
+	export   func(context.Context) error
+	shutdown func(context.Context) error
+	close    func()
+}
+
+func vNewExporter(core *vCore, rc RetryConfig, to string) *vExporter {
+	e := newExporter(vNewClient(core, rc, to))
+	recs := make([]sdklog.Record, 1)
+	recs[0].SetSeverityText("verif-c14")
+	return &vExporter{
+		export:   func(ctx context.Context) error { return e.Export(ctx, recs) },
+		shutdown: e.Shutdown,
+		close:    func() {},
+	}
+}
+
+func vNewUploader(core *vCore, rc RetryConfig, to string) *vUploader {
+	c := vNewClient(core, rc, to)
 	rl := []*logpb.ResourceLogs{{ScopeLogs: []*logpb.ScopeLogs{{LogRecords: []*logpb.LogRecord{{
 		TimeUnixNano: 1, ObservedTimeUnixNano: 2, SeverityText: "verif-c14"}}}}}}
 	return &vUploader{
 		upload:      func(ctx context.Context) error { return c.UploadLogs(ctx, rl) },
-		stop:        func() {},
+		stop:        func() error { return nil },
 		waitStopped: func() {},
 		close:       func() {},
 		request:     &collogpb.ExportLogsServiceRequest{ResourceLogs: rl},
